@@ -345,7 +345,7 @@ func (w *c02WF) build(log *vLog, d *vDecider) *Workflow[map[string]any, map[stri
 		k := k
 		n := wf.AddLambdaNode(k, InvokableLambda(func(ctx context.Context, in map[string]any) (map[string]any, error) {
 			x := vFoldDeep(in)
-			log.execs = append(log.execs, vExec{k, x})
+			log.add(k, x)
 			return map[string]any{k: vsymUF("f_"+k, x)}, nil
 		}))
 		add(n, k)
